@@ -136,6 +136,29 @@ def _work(H, chunk):
     return viols, ncalls, nontriv, samp
 
 
+def _lex_binding(chk, texts):
+    """Lexer.tla <-> code: the token stream the real tokenizer prints under DEBUG for every spelling must be the one Lexer.tla computes
+    (Trace_Lex).  Model/code agreement, recorded as drift: the verdict of C09 is the structural-equality law above."""
+    import json
+    from harness import lexrec, trace
+    sv, bs4 = common.import_repo()
+    lines = []
+    for k, t in enumerate(sorted(set(texts))):
+        r = lexrec.record(sv, t)
+        lines.append(json.dumps({'id': 'x%d' % k, 'text': common.cps(t), 'toks': r['toks'], 'lexerr': r['lexerr'], 'complete': bool(r['complete']),
+                                 'res': 'tokens', 'css': t}))
+    sub = common.Check('C09-lex', chk.tier)
+    rej = trace.validate(sub, lines, 'Trace_Lex', 'lexer-binding', batch=600)
+    chk.coverage['states'] += sub.coverage['states']
+    chk.coverage['transitions'] += sub.coverage['transitions']
+    chk.coverage['traces_validated_against_impl'] += len(lines)
+    for m in sub.machinery_errors:
+        chk.machinery(m)
+    chk.notes['lexer_binding'] = {'texts': len(lines), 'token_streams_equal_to_Lexer_tla': len(lines) - len(rej)}
+    for rid, exp in rej[:20]:
+        chk.drift.append({'lexer_model_disagrees': rid, 'spec': (exp or '')[:300]})
+
+
 def main(tier):
     chk = common.Check('C09', tier)
     chk.assumptions += ['slots are annotated by hand in the pool (where CSS allows whitespace); whitespace-significant places are not slots',
@@ -145,15 +168,18 @@ def main(tier):
     try:
         shutil.copy(os.path.join(tlc.SPEC_DIR, 'Spelling.tla'), tmpd)
         shutil.copy(os.path.join(tlc.SPEC_DIR, 'Str.tla'), tmpd)
+        shutil.copy(os.path.join(tlc.SPEC_DIR, 'Lexer.tla'), tmpd)
         with open(os.path.join(tmpd, 'MC_C09_gen.tla'), 'w') as f:
-            f.write('---- MODULE MC_C09_gen ----\n\\* generated from the annotated pool of checks/c09.py\nEXTENDS Spelling, Json\n'
+            f.write('---- MODULE MC_C09_gen ----\n\\* generated from the annotated pool of checks/c09.py\nEXTENDS Spelling, Lexer, Json\n'
+                    '\\* T-Spelling: a respelling lexes (Lexer.tla) to the same token kinds and combinators as the canonical spelling\n'
+                    'TSpelling == KindsRel(Render(Pool[sel], sp)) = KindsRel(Render(Pool[sel], [i \\in 1..Len(sp) |-> 0]))\n'
                     'PoolDef == << %s >>\n'
                     'Emit == PrintT(ToJson([sel |-> sel, text |-> Render(Pool[sel], sp), canon |-> Render(Pool[sel], [i \\in 1..Len(sp) |-> 0])]))\n====\n'
                     % ',\n  '.join(_tla_items(it) for it in items))
         dev = 1 if tier == 'quick' else 2
         cfgdir = tmpd
         with open(os.path.join(tmpd, 'c09.cfg'), 'w') as f:
-            f.write('CONSTANTS\n Pool <- PoolDef\n MaxDev = %d\nINIT Init\nNEXT Next\nINVARIANT Emit\nINVARIANT CanonicalIsIdentity\nCHECK_DEADLOCK FALSE\n' % dev)
+            f.write('CONSTANTS\n Pool <- PoolDef\n MaxDev = %d\nINIT Init\nNEXT Next\nINVARIANT Emit\nINVARIANT CanonicalIsIdentity\nINVARIANT TSpelling\nCHECK_DEADLOCK FALSE\n' % dev)
         # reuse the streaming machinery with a pre-written cfg
         import multiprocessing as mp
         ctx = mp.get_context('fork')
@@ -162,7 +188,10 @@ def main(tier):
         buf = []
         n = [0]
 
+        texts = []
+
         def on_line(v):
+            texts.append(common.st(v['text']))
             buf.append(v)
             n[0] += 1
             if len(buf) >= 200:
@@ -186,6 +215,7 @@ def main(tier):
         chk.coverage['traces_validated_against_impl'] += n[0]
         pool.close()
         pool.join()
+        _lex_binding(chk, texts if tier == 'quick' else texts[::7])
     finally:
         shutil.rmtree(tmpd, ignore_errors=True)
     return chk.finish()
